@@ -70,7 +70,9 @@ theorem reach_nosemi (hn : c.needBuild = true) {s : St} (h : Reach c s) : ∀ t,
     itself is allowed, in any order. -/
 def Allowed (s : St) : Action → Prop
   | .activate _ _ => s.initDone = false
+  | .subWait _ => s.initDone = false
   | .stop => False
+  | .cycleCheck => False
   | .queuerAbort _ => False
   | _ => True
 
@@ -141,8 +143,10 @@ theorem step_kg_frame {s s' : St} {a : Action} (hal : Allowed s a) (hf : fire c 
     (repeat' split at hf) <;> (try cases hf) <;> (try exact absurd hal id) <;>
     (try simp only [upd] at *) <;> (try (refine ⟨?_, ?_, ?_⟩ <;> simp_all <;> (try omega)))
   -- workerFail: the worker's own target is the witness
-  rename_i w _ t _
-  exact .inr ⟨t, fun h => absurd rfl h⟩
+  all_goals first
+    | (rename_i w _ t _; exact .inr ⟨t, fun h => absurd rfl h⟩)
+    | (rename_i w _ t _ _; exact .inr ⟨t, fun h => absurd rfl h⟩)
+    | skip
 
 theorem step_rank_mono {s s' : St} (hi : Inv c s) {a : Action} (ha : fire c s a = some s') (t : T) :
     (s.st t).rank ≤ (s'.st t).rank := by
@@ -198,7 +202,8 @@ inductive Tainted (s : St) : T → Prop
   | dep {t d : T} : d ∈ c.deps t → Tainted s d → Tainted s t
 
 /-- **The final state of a keep-going run.**  `hmax`: no goroutine of the program can step any more. -/
-theorem final_state {req : List T} {s : St} (hn : c.needBuild = true) (hacy : Acyclic c) (hrun : RunKG c req s)
+theorem final_state {req : List T} {s : St} (hn : c.needBuild = true) (hacy : Acyclic c)
+    (hfw : c.failWakes = true) (hlo : c.lateOK = true) (hrun : RunKG c req s)
     (hmax : ¬ CanStep c s) :
     Final s ∧ Quiet s ∧
     (∀ t, s.st t ≠ .inactive → (s.st t).terminal = true) ∧
@@ -210,7 +215,7 @@ theorem final_state {req : List T} {s : St} (hn : c.needBuild = true) (hacy : Ac
   have h3 := reach_inv3 c hr
   have kg := runKG_inv c hrun
   have hfin : Final s := by
-    rcases no_deadlock c hr hacy with h | h
+    rcases no_deadlock c hr hacy hfw hlo with h | h
     · exact h
     · exact absurd h hmax
   have hq : Quiet s := by
@@ -300,7 +305,9 @@ theorem tainted_has_failed {s : St} {t : T} (h : Tainted c s t) : ∃ d, s.st d 
 
 def allowedB (s : St) : Action → Bool
   | .activate _ _ => !s.initDone
+  | .subWait _ => !s.initDone
   | .stop => false
+  | .cycleCheck => false
   | .queuerAbort _ => false
   | _ => true
 
